@@ -595,6 +595,8 @@ def one_loop(ex, st, p, it, module, is_for, inv, target, ordinal, optional=froze
   # ---- after the loop
   exit_p = head
   exit_p.events.append(('loop-writes', target, ordinal, tuple(sorted(n_ for n_ in names if n_ in head_env))))
+  if is_for and n_iter is not None:
+    exit_p.events.append(('loop-count', target, ordinal, n_iter))      # ghost: how many iterations the for loop makes
   exit_p.side += carried
   for n in carried_notes:
     if n not in exit_p.notes:
@@ -659,6 +661,8 @@ def one_loop(ex, st, p, it, module, is_for, inv, target, ordinal, optional=froze
   if st.orelse:
     exits = ex.block(st.orelse, exits, module)
   out += exits
+  for q in breaks:
+    q.events.append(('loop-break', target, ordinal))        # ghost: this path left the loop through `break`
   out += breaks
   return out
 
